@@ -62,11 +62,12 @@ type cEvent struct {
 }
 
 type cVariant struct {
-	Impl   string `json:"impl"`
-	Shift  int    `json:"shift"`
-	Table  int    `json:"table"`
-	NoFrom bool   `json:"nofrom"` // soft types declared by hand: relationships without FromType
-	Built  bool   `json:"built"`  // resource family: a soft resource is given a copy of a type made by BuildType (it carries a NewFunc)
+	Impl    string `json:"impl"`
+	Shift   int    `json:"shift"`
+	Table   int    `json:"table"`
+	NoFrom  bool   `json:"nofrom"`  // soft types declared by hand: relationships without FromType
+	Built   bool   `json:"built"`   // resource family: a soft resource is given a copy of a type made by BuildType (it carries a NewFunc)
+	NamedID bool   `json:"namedid"` // resource family: wrapped structs have an ID field of a defined string type
 }
 
 type cCase struct {
